@@ -82,6 +82,11 @@ def graph_invariants(gwy, max_zones: int) -> list[tuple[str, str]]:
     for i, cs in where.items():
         if len(cs) > 1:
             out.append(("C15:device-under-two-controllers", f"{i} appears under {sorted(cs)}"))
+    # a device has at most one place (zone / DHW / appliance role); sensor + actuator of the SAME zone is one place
+    for i, ps in places(gwy).items():
+        spots = {p for p in ps}
+        if len(spots) > 1:
+            out.append(("C15:device-in-two-places", f"{i} is listed at {sorted(spots)}"))
     return out
 
 
@@ -144,14 +149,52 @@ def parents(gwy) -> dict:
     return {d.id: getattr(getattr(d, "_parent", None), "id", None) for d in gwy.devices}
 
 
+def zone_sensors(gwy) -> dict:
+    out = {}
+    for tcs in gwy.systems:
+        for z in getattr(tcs, "zones", []):
+            s = getattr(z, "sensor", None)
+            out[z.id] = getattr(s, "id", None)
+    return out
+
+
+def places(gwy) -> dict:
+    """device id -> every place the reported schema lists it in (zone sensor / actuator, DHW part, appliance control)."""
+    out: dict[str, set] = {}
+    for cid, s in gwy.schema.items():
+        if not isinstance(s, dict):
+            continue
+        for zi, z in (s.get("zones") or {}).items():
+            if z.get("sensor"):
+                out.setdefault(z["sensor"], set()).add(f"{cid}/{zi}")
+            for a in z.get("actuators") or []:
+                out.setdefault(a, set()).add(f"{cid}/{zi}")
+        for k, v in (s.get("stored_hotwater") or {}).items():
+            if isinstance(v, str):
+                out.setdefault(v, set()).add(f"{cid}/dhw:{k}")
+        app = (s.get("system") or {}).get("appliance_control")
+        if app:
+            out.setdefault(app, set()).add(f"{cid}/appliance")
+    return out
+
+
 def run_history(t: E.Tally, lines, rep, label, eav, max_zones, at: set[int]) -> None:
     w, gwy = GC.new_world(eavesdrop=eav, max_zones=max_zones)
     try:
         par = {}
+        sens: dict = {}
         for k, ln in enumerate(lines):
             nexc, nlog = len(w.loop.exc), len(logcap.CAP.records)
             GC.feed(w, ln)
             now = parents(gwy)
+            zs = zone_sensors(gwy)
+            swapped = [(z, sens[z], s) for z, s in zs.items() if sens.get(z) is not None and s is not None and s != sens[z]]
+            if swapped:
+                reported = any("Inconsistent" in str(type(c.get("exception")).__name__) for c in w.loop.exc[nexc:]) or any("Inconsistent" in r[1] for r in logcap.CAP.records[nlog:])
+                if not reported:
+                    z, a, b = swapped[0]
+                    t.bad("C15:zone-sensor-replaced-silently", f"{label} line {k} {ln[2][:60]!r}: the sensor of {z} changed from {a} to {b} and no inconsistency was reported", rep)
+            sens = zs
             moved = [(d, par[d], p) for d, p in now.items() if par.get(d) is not None and p != par[d]]
             if moved:
                 reported = any("Inconsistent" in str(type(c.get("exception")).__name__) for c in w.loop.exc[nexc:]) or any("Inconsistent" in r[1] for r in logcap.CAP.records[nlog:])
